@@ -30,7 +30,7 @@ ASSUMPTIONS = ['input domain: every process owns at least one point in every dis
 
 def gen(rng, tier, idx):
     if idx == 0:
-        return dict(kind='sweep', P=1, nmax=40, sched=simworld.default_sched(0))
+        return dict(kind='sweep', P=1, nmax=70 if tier == 'quick' else 130, sched=simworld.default_sched(0))
     if rng.random() < 0.2:
         # the buffer-size and accessor clauses on a LayoutSwapper with random groupings listed in any order
         c = c03._gen_plain(rng, tier, idx)
